@@ -69,6 +69,15 @@ class C16(Prop):
             edges.pop()
         focal = rng.choice(nodes)
         ak = [v for v in nodes if v != focal and rng.random() < 0.7]
+        if rng.random() < 0.5:
+            # the substrate is larger than the part the counter looks at: isolated vertices and extra tree-like components
+            base = max(nodes) + 1
+            for j in range(rng.randint(1, 3)):
+                nodes.append(base + j)
+            if rng.random() < 0.5:
+                a, b, c = base + 10, base + 11, base + 12
+                nodes += [a, b, c]
+                edges += [[a, b], [b, c]]
         k = rng.randint(0, min(len(edges), 4))
         return {"kind": "nocg", "nodes": nodes, "edges": edges, "ak": ak, "i": focal, "k": k}
 
